@@ -630,7 +630,6 @@ func CheckAll() map[string][]string {
 	return out
 }
 
-
 // ---- schema evolution (C16) ----
 
 var Pairs [][2]string
@@ -663,7 +662,9 @@ func zeroField(f Field, depth int) string {
 	return show(scalar(f.Kind, 0, f.Tag))
 }
 
-func sameWire(a, b Field) bool { return a.Tag == b.Tag && a.Kind == b.Kind && a.List == b.List && a.Ref == b.Ref }
+func sameWire(a, b Field) bool {
+	return a.Tag == b.Tag && a.Kind == b.Kind && a.List == b.List && a.Ref == b.Ref
+}
 
 // crossRead: write `from` (value set), read with `to`.
 func crossRead(from, to *Msg, variant, only int, dir string) (problems []string) {
